@@ -184,8 +184,14 @@ func c16Leader(r *Run, h int) (ok bool) {
 	if rng.Intn(2) == 0 {
 		order = []int{1, 0}
 	}
+	// three endpoints: a server that is not there next to the two that are, at any place of the list (the
+	// endpoint that accepts the connection may be the first, the middle or the last one)
+	eps := []string{rigs[order[0]].endpoint(), rigs[order[1]].endpoint()}
+	dead := fmt.Sprintf("unix:%s/nobody-%d.sock", rigs[0].dir, h)
+	at := rng.Intn(3)
+	eps = append(eps[:at], append([]string{dead}, eps[at:]...)...)
 	a, err := client.NewOVSDBClient(cdb.Client, client.WithLogger(&lg), client.WithLeaderOnly(true),
-		client.WithEndpoint(rigs[order[0]].endpoint()), client.WithEndpoint(rigs[order[1]].endpoint()),
+		client.WithEndpoint(eps[0]), client.WithEndpoint(eps[1]), client.WithEndpoint(eps[2]),
 		client.WithReconnect(2*time.Second, backoff.NewConstantBackOff(3*time.Millisecond)))
 	if err != nil {
 		r.Violation("rig", nil, err.Error(), "", false, "cannot create the client", "")
